@@ -144,7 +144,7 @@ class EnvModel:
                 e = Entry(fam, key, val, pres, vty)
                 store = self.store_of(st, c)
                 st.stores[c] = store.with_entries(store.entries + (e,))
-                st.emit(('lazy', c, fam, key, len(store.entries)))
+                st.emit(('lazy', c, fam, key, len(store.entries), e))
                 yield st, len(store.entries)
                 return
             i, e = cands[n]
